@@ -258,7 +258,13 @@ func main() {
 
 	resDir := filepath.Join(tmpDir, "res")
 	os.MkdirAll(resDir, 0o755)
-	replayDir := filepath.Join(verifDir, "replays")
+	// runs against a scratch copy of the library (seeded changes) keep their
+	// replays and evidence apart: evidence/ and replays/ always describe /repo
+	outBase := verifDir
+	if abs, _ := filepath.Abs(*repo); abs != "/repo" {
+		outBase = filepath.Join(verifDir, "scratch")
+	}
+	replayDir := filepath.Join(outBase, "replays")
 	os.MkdirAll(replayDir, 0o755)
 	if old, _ := filepath.Glob(filepath.Join(replayDir, prop+"-*.json")); true {
 		for _, f := range old {
@@ -507,11 +513,11 @@ func main() {
 		"violations":  unlisted,
 	}
 	b, _ := json.MarshalIndent(ev, "", " ")
-	evDir := filepath.Join(verifDir, "evidence")
+	evDir := filepath.Join(outBase, "evidence")
 	if prop == "SIMTEST" {
 		// (not a property of the library: the simulator's self-check keeps
 		// its report apart from the per-property evidence)
-		evDir = filepath.Join(verifDir, "selfcheck")
+		evDir = filepath.Join(outBase, "selfcheck")
 	}
 	os.MkdirAll(evDir, 0o755)
 	if err := os.WriteFile(filepath.Join(evDir, prop+".json"), b, 0o644); err != nil {
